@@ -339,6 +339,26 @@ func CheckCase(c Case) *ev.Violation {
 				default:
 					s = n
 				}
+				// the documented rule, applied to the style as built (it may coincide with another registered name of
+				// the case): after an optional "texttable." the whole remainder if that is a registered name, else its
+				// first section if that is one, else nothing known
+				after := s
+				if len(s) >= 10 && strings.EqualFold(s[:10], "texttable.") {
+					after = s[10:]
+				}
+				isReg := func(x string) bool { return decoration.Named(x) != decoration.EmptyDecoration }
+				first := after
+				if i := strings.Index(after, "."); i >= 0 {
+					first = after[:i]
+				}
+				switch {
+				case isReg(after):
+					known, selects = true, after
+				case isReg(first):
+					known, selects = true, first
+				default:
+					known = false
+				}
 				v = resolve(s, "texttable", selects, true, !known)
 			case "unknown":
 				s := fmt.Sprintf("no-such-style-%d", seq)
